@@ -12,7 +12,7 @@ ALL_OPS = arrays.C04_OPS + arrays.C06_OPS
 def complaints_to_violations(rep, comps, exps_by_name, extra=None):
     n = 0
     for c in comps:
-        sig = {"kind": "lifecycle", "rule": c["bad"], "op": c.get("op"), "fault": "none" if c["seg"][1] < 0 else "injected"}
+        sig = {"kind": "lifecycle", "rule": c["bad"], "op": c.get("op"), "fault": "none" if c["seg"][1] < 0 else "injected", "exc": c.get("exc", "-")}
         if extra:
             sig.update(extra)
         detail = {"complaint": c}
